@@ -18,7 +18,9 @@ def _features(spec):
 
 
 def _layer(a):
-    kw = dict(out_channels=a['out'], use_bias=a['use_bias'], normalization=a['norm'],
+    # option names are case-insensitive in the library ('Both', as its own tests write it): the spelling must not matter
+    sp = {'title': str.title, 'upper': str.upper}.get(a.get('norm_spelling'), str)
+    kw = dict(out_channels=a['out'], use_bias=a['use_bias'], normalization=sp(a['norm']),
               self_embeddings=a['self_embeddings'])
     if a['act'] in ('ce', 'bce'):
         layer = Convolution('conv', activation='identity', loss={'ce': 'CrossEntropy', 'bce': 'BinaryCrossEntropy'}[a['act']], **kw)
